@@ -249,4 +249,17 @@ def lean_pipeline(chk, sources, extra_targets=()):
     if not all_ok:
         chk.notes['proof_broken'] = 'audit: ' + '; '.join(problems_all)
         return False
+    if chk.tier == 'thorough':
+        # independent re-check of the compiled property modules (and everything they import) by leanchecker
+        mods_full = [f'SoupVerif.Properties.{m}' for m in mods]
+        lock = open(os.path.join(LEAN, '.build.lock'), 'w')
+        fcntl.flock(lock, fcntl.LOCK_EX)
+        try:
+            rc, out = sh(['lake', 'env', 'leanchecker'] + mods_full, cwd=LEAN, timeout=3000)
+        finally:
+            fcntl.flock(lock, fcntl.LOCK_UN)
+        chk.coverage['leanchecker'] = {'modules': mods_full, 'rc': rc}
+        if rc != 0:
+            chk.notes['proof_broken'] = 'leanchecker: ' + out[-1500:]
+            return False
     return True
